@@ -115,7 +115,12 @@ async def check_expression(ctx, case):
         scheduler = sched.Sched(sched.RandomChooser(rng)) if rng.random() < 0.7 else None
         if scheduler is not None:
             ctx.count("async_related_pairs_under_random_completion_order")
-        aout = await H.async_requirement(ts, H.world_for(tast, asg), scheduler)
+        hints = None
+        if rng.random() < 0.35:
+            # hint texts are user data: empty, blank, "0" and "None" are texts like any other
+            hints = {k: rng.choice(["", "", " ", "0", "None", E.hint_text(k)]) for k in G.keys_of(tast, "hint")}
+            ctx.count("async_related_pairs_with_odd_hint_texts")
+        aout = await H.async_requirement(ts, H.world_for(tast, asg, hints=hints), scheduler)
         if aout[0] != "ok":
             ctx.violation("transformation-makes-invalid" if type(aout[1]).__name__ == "InvalidExpressionError" else f"evaluation-raises-{type(aout[1]).__name__}", f"{name}: requirement_constraint_evaluation({ts!r}) under {asg} {describe(aout)[:200]}", case=case)
         elif (aout[1].requirement_constraints_fulfilled, aout[1].requirement_is_conditional) != expected:
